@@ -31,6 +31,10 @@ BUILT = {
    tech="exhaustive bounded-depth enumeration with on- and off-grid prices offered to create, create_and_place and modify at every point of every history; grid monitor",
    text="Ticks 2,3,5,10 with off-grid neighbours of grid prices offered to every creating and modifying entry point at every point of every history to the stated depth; rejected creations must leave the snapshot untouched; every resting price on the grid; published levels account for all resting volume in range.",
    note="Trusted: nothing beyond the public getters."),
+ "C07": dict(cat="model_checking", engine="seqx+marketx", ref="§3 C07",
+   tech="exhaustive bounded-depth enumeration with reload (in-memory / compact file / pretty file) as an operation, model-free differential against the never-reloaded run + sweep; every truncation offset of every snapshot file of a bounded state set",
+   text="(a) reload is an operation of the alphabet, so it lands at every point of every history to the stated depth (book LEVELS 1,2,3,10,24; Market<2>,<3> against never-reloaded shadow books); the run h.reload.c must be indistinguishable from h.c on the same real code, step by step and when swept. (b) for every history of length <= d, both formats, the file cut at every byte offset must be rejected with an error.",
+   note="Trusted: nothing beyond the public getters; torn writes other than truncation are outside the statement."),
  "C13": dict(cat="model_checking", engine="seqx+envx", ref="§3 C13",
    tech="exhaustive bounded-depth enumeration with enable/disable as operations at every point; reference engine + direct no-trade clauses + drain probe",
    text="Trading toggles land at every point of every history to the stated depth (both start states); trade log constant while off, market orders rejected without touching the book, toggles are no-ops, matching after re-enabling equals the reference engine's.",
